@@ -164,6 +164,12 @@ def one_case(rng, res):
         # neither when recording nor when matching
         d0 = lstrip[0]
         lstrip = [rng.choice(["./" + d0, d0 + "/", d0.rstrip("/") + "//", "zz/../" + d0])]
+    if rng.random() < 0.15 and "build" not in tree and "dist" not in tree:
+        # two prefixes to strip, and inside the first directory a directory named like the second: the first matching
+        # prefix is stripped, once - build/dist/app.bin is recorded (and compared) as dist/app.bin
+        tree["build"] = ("d", {"dist": ("d", {"app.bin": ("f", b"app %d\n" % rng.randrange(9))}), "obj.o": ("f", b"o\n")})
+        tree["dist"] = ("d", {"pkg.tar": ("f", b"tar\n")})
+        lstrip = rng.choice([["build/", "dist/"], ["dist/", "build/"]])
     colon = None
     if rng.random() < 0.25 and tree.get("out", ("d", {}))[0] == "d":
         # a file whose name contains a colon (a tag, a drive-like prefix): a path like any other, also when listed by name
